@@ -149,6 +149,8 @@ def apply(heap, op, focus, tier='quick'):
     snap = Snapshot(heap.entries) if 'C03' in focus else None
     try:
         res = impl.run(heap.entries, op)
+    except OpError as e:
+        return [(e.cat, e.key, e.msg)], None
     except Exception as e:  # noqa: BLE001
         return [('C01', name + ':raises:' + type(e).__name__, 'operation %r inside its documented domain raised %s: %s\n%s' % (op, type(e).__name__, e, traceback.format_exc()[-1200:]))], None
     out = []
